@@ -24,6 +24,8 @@ def run_property(pid: str, tier: str, replay: str | None = None) -> int:
     run = Run(pid, tier, expl, COMMON_ASSUMPTIONS + prop.assumptions)
     try:
         c = Ctx(tier=tier)
+        if os.environ.get("VERIF_EXPERIMENT_NORMALISE_ALL"):
+            c = c.normalised("")          # experiment only (not used by any registered command): every rule on the normal form
         rules = list(prop.rules) + (list(prop.thorough) if tier == "thorough" else [])
         for rule in rules:
             res = rule(c)
